@@ -6,6 +6,7 @@ import (
 	"go/constant"
 	"go/token"
 	"go/types"
+	"strings"
 )
 
 type kval func(*St, *Val)
@@ -57,7 +58,12 @@ func (x *Exec) eval(e ast.Expr, st *St, fr *Frame, k kval) {
 					oos("index of non-sequence")
 				}
 				x.safety(st, fr, And(Cmp("<=", IntLit(0), i.T), Cmp("<", i.T, SeqLen(a.T))), "index", n.Lbrack)
-				k(st, &Val{T: SeqAt(a.T, i.T), Ty: fr.typeOf(n)})
+				ev := &Val{T: SeqAt(a.T, i.T), Ty: fr.typeOf(n)}
+				if strings.HasPrefix(a.Proto, "chans.") {
+					// an element of a slice of channels carries the slice's protocol
+					ev.Proto = "chan." + strings.TrimPrefix(a.Proto, "chans.")
+				}
+				k(st, ev)
 			})
 		})
 	case *ast.SliceExpr:
